@@ -83,24 +83,27 @@ def get_aug_config(intensity_aug, geometric_aug):
         if isinstance(geometric_aug, str):
             geometric_aug = [geometric_aug]
 
+        # Affine parameters of augmentations that are not requested are neutralised;
+        # the requested ones keep their default (non-neutral) values whatever the
+        # order of the list.
+        if any(g in ("rotation", "scale", "translate") for g in geometric_aug):
+            aug_config.geometric.affine_p = 1.0
+            if "rotation" not in geometric_aug:
+                aug_config.geometric.rotation = 0
+            if "scale" not in geometric_aug:
+                aug_config.geometric.scale = (1.0, 1.0)
+            if "translate" not in geometric_aug:
+                aug_config.geometric.translate_height = 0
+                aug_config.geometric.translate_width = 0
+
         for g in geometric_aug:
             if g == "rotation":
-                aug_config.geometric.affine_p = 1.0
-                aug_config.geometric.scale = (1.0, 1.0)
-                aug_config.geometric.translate_height = 0
-                aug_config.geometric.translate_width = 0
+                pass
             elif g == "scale":
                 aug_config.geometric.scale = (0.9, 1.1)
-                aug_config.geometric.affine_p = 1.0
-                aug_config.geometric.rotation = 0
-                aug_config.geometric.translate_height = 0
-                aug_config.geometric.translate_width = 0
             elif g == "translate":
                 aug_config.geometric.translate_height = 0.2
                 aug_config.geometric.translate_width = 0.2
-                aug_config.geometric.affine_p = 1.0
-                aug_config.geometric.rotation = 0
-                aug_config.geometric.scale = (1.0, 1.0)
             elif g == "erase_scale":
                 aug_config.geometric.erase_p = 1.0
             elif g == "mixup":
